@@ -8,10 +8,11 @@
    dependency edges, last -> first closes).
 
    Full statement = the three theorems below for ALL operator tables T and ALL graphs g,
-   outside two input classes on which the Rust code panics instead of answering (known findings,
-   each with a _refuted witness evaluated on the regenerated table Gen.ops_table):
+   outside two input classes on which the model panics instead of answering:
      access_conflict g   : one operator references one handoff in two different access groups
-     enemy_self_pair T g : a delayed edge (or a reference) from a node to itself
+                           (known finding, _refuted witness below on the regenerated Gen.ops_table)
+     enemy_self_pair T g : a reference from a node to itself (cannot be written in the surface
+                           syntax; a delayed self edge no longer counts since /repo 155f525eb46)
    Precondition [deps_closed_b T g]: every predecessor named by a dependency is a node of g (decidable;
    the check evaluates it on every real flat graph).
    Not stated here: that the phases after SubgraphMerge::new cannot fail (checked by
@@ -49,31 +50,20 @@ Theorem C19_oracle_correct : forall (T : optable) (g : graph),
 Proof. exact c19_oracle_correct. Qed.
 Print Assumptions C19_oracle_correct.
 
-(* ---- known finding 1:  `a = defer_tick(); a -> a;`
-   The only edge is delayed, so the same-tick dependency graph is empty (acyclic), yet
-   partition_graph does not accept: SubgraphMerge::new panics on the enemy pair (a, a). *)
+(* ---- former finding 1 (fixed in /repo 155f525eb46):  `a = defer_tick(); a -> a;`
+   The only edge is delayed, so the same-tick dependency graph is empty (acyclic); since the fix
+   the self pair is no longer an enemy pair and the graph is accepted (corpus/C19/delayed_self_loop.json
+   runs first in every check). *)
 Definition g_self_delay : graph :=
   mkGraph [mkNode 1 (KOp "defer_tick") None [] None None]
           [mkEdge 1 1 1 PElided PElided] [] [] [].
 
-Theorem C19_refuted_delayed_self_loop :
-  exists g, deps_closed_b ops_table g = true /\ enemy_self_pair ops_table g = true /\
-            (~ exists c, is_cycle (same_tick_deps ops_table g) c) /\
-            partition_verdict ops_table g = Panicked.
-Proof.
-  exists g_self_delay. split; [vm_compute; reflexivity|]. split; [vm_compute; reflexivity|]. split.
-  - intros (c & Hne & _ & _ & Hl).
-    assert (E : forall n, same_tick_deps ops_table g_self_delay n = []).
-    { intro n. unfold same_tick_deps.
-      replace (pred_pairs ops_table g_self_delay (access_pairs_raw g_self_delay)) with (@nil (N * N))
-        by (vm_compute; reflexivity).
-      reflexivity. }
-    rewrite E in Hl. exact Hl.
-  - vm_compute. reflexivity.
-Qed.
-Print Assumptions C19_refuted_delayed_self_loop.
+Example C19_delayed_self_loop_accepted :
+  deps_closed_b ops_table g_self_delay = true /\ enemy_self_pair ops_table g_self_delay = false /\
+  access_conflict g_self_delay = false /\ partition_verdict ops_table g_self_delay = Accepted.
+Proof. vm_compute. repeat split; reflexivity. Qed.
 
-(* ---- known finding 2:
+(* ---- known finding:
    `n0 = source_iter(0..1) -> singleton(); source_iter(0..5) -> map(|x| x + #{0} n0 + #{1} n0) -> null();`
    node 4 (map) references handoff 2 in groups 0 and 1: the access-order dependency 4 -> 4 is a
    cycle of the dependency graph, but instead of the diagnostic with the cycle the code panics
